@@ -8,7 +8,8 @@ Fresh(stim) == [stim |-> stim, n |-> 0]
 Keys == {"runs", "symbol_hits", "symbol_misses", "file_hits", "file_misses", "lists", "sibling_spellings", "nested_names", "duplicate_files"}
 Init == InitK(Fresh([files |-> <<>>]), Keys)
 Reset == ResetK(Fresh(E.stim)) /\ Count({"runs"} \cup (IF E.stim.dup THEN {"duplicate_files"} ELSE {}))
-AllFiles(stim) == IF stim.dup /\ stim.files # <<>> THEN stim.files \o <<stim.files[1]>> ELSE stim.files
+\* files in registration order: the registered sets one after the other (indices are 0-based in the stimulus)
+AllFiles(stim) == FlattenSeq([k \in 1..Len(stim.sets) |-> [j \in 1..Len(stim.sets[k]) |-> stim.files[stim.sets[k][j] + 1]]])
 FileHit(resp, fileNb) == resp.k = "files" /\ Len(resp.files) >= 1 /\ resp.files[1].decodes /\ resp.files[1].nb = fileNb /\ resp.files[1].same
 NotFound(resp) == resp.k = "status" /\ resp.code = 5
 InOwnNamespace(nb) == IsPrefix(<<103, 114, 112, 99, 46, 114, 101, 102, 108, 101, 99, 116, 105, 111, 110>>, nb)      \* "grpc.reflection": tonic's own descriptors
